@@ -29,6 +29,7 @@ type Result struct {
 	Panic      string            `json:"panic,omitempty"`
 	Hang       bool              `json:"hang,omitempty"`
 	AssumeFail bool              `json:"assume_failed,omitempty"`
+	CutLabel   string            `json:"cut,omitempty"` // deliberate sym.Cut (e.g. not replayable natively)
 }
 
 // Run plays back the batch named by env GOSYM_BATCH and writes results to GOSYM_OUT.
@@ -59,8 +60,9 @@ func Run(harnesses map[string]func()) error {
 			defer close(done)
 			defer func() {
 				if r := recover(); r != nil {
-					if _, ok := r.(sym.AssumeFailed); ok {
+					if af, ok := r.(sym.AssumeFailed); ok {
 						res.AssumeFail = true
+						res.CutLabel = af.Label
 						return
 					}
 					res.Panic = fmt.Sprintf("%v\n%s", r, debug.Stack())
